@@ -11,7 +11,7 @@ from tests import utils
 from native import mdibtools as mt
 
 KINDS = ('metric', 'alert', 'component', 'operational', 'context', 'location', 'rt', 'descr_update', 'descr_create',
-         'descr_delete', 'descr_recreate')
+         'descr_delete', 'descr_recreate', 'descr_create_siblings', 'descr_delete_siblings', 'mixed_descr_and_state')
 
 
 class History:
@@ -150,6 +150,47 @@ class History:
             st = self.mdib.data_model.mk_state_container(tr.get_descriptor(handle)) if False else None
         self.created.append((handle, parent))
         return [handle]
+
+    def do_descr_create_siblings(self):
+        """Two (or three) children under one parent in ONE transaction: the parent version is bumped per child."""
+        channels = [d.Handle for d in self.mdib.descriptions.objects if d.NODETYPE == pm.ChannelDescriptor]
+        parent = self.rnd.choice(sorted(channels))
+        handles = ['verif_sib_%d_%d' % (self.counter, i) for i in range(self.rnd.randint(2, 3))]
+        with self.mdib.descriptor_transaction() as tr:
+            for h in handles:
+                tr.add_descriptor(self._new_descriptor(h, parent))
+        self.created.extend((h, parent) for h in handles)
+        return handles
+
+    def do_descr_delete_siblings(self):
+        by_parent = {}
+        for h, p in self.created:
+            by_parent.setdefault(p, []).append(h)
+        groups = [v for v in by_parent.values() if len(v) >= 2]
+        if not groups:
+            return self.do_descr_create_siblings()
+        victims = self.rnd.choice(groups)[:2]
+        with self.mdib.descriptor_transaction() as tr:
+            for h in victims:
+                tr.remove_descriptor(h)
+        for h in victims:
+            entry = [e for e in self.created if e[0] == h][0]
+            self.created.remove(entry)
+            self.deleted.append(entry)
+        return victims
+
+    def do_mixed_descr_and_state(self):
+        """Two descriptor updates, one of them together with its own state, in one descriptor transaction."""
+        cands = sorted(d.Handle for d in self.mdib.descriptions.objects if d.NODETYPE == pm.NumericMetricDescriptor)
+        if len(cands) < 2:
+            return self.do_descr_update()
+        a, b_ = self.rnd.sample(cands, 2)
+        with self.mdib.descriptor_transaction() as tr:
+            tr.get_descriptor(a).DeterminationPeriod = self.rnd.randrange(1, 500) / 10
+            tr.get_descriptor(b_).SafetyClassification = self.rnd.choice(list(pm_types.SafetyClassification))
+            st = tr.get_state(b_)
+            st.ActivationState = self.rnd.choice(list(pm_types.ComponentActivation))
+        return [a, b_]
 
     def do_descr_delete(self):
         if not self.created:
